@@ -14,6 +14,8 @@ import math
 import os
 
 import mpmath as mp
+import warnings
+
 import numpy as np
 from hypothesis import strategies as st
 
@@ -277,6 +279,36 @@ class C17(Prop):
             ctx.count('converged-on-last-iteration')
         ctx.count('iterations==circles-1' if int(info.iterations) == ncircles - 1 else 'iterations!=circles-1')
         ctx.count('status=%s' % ('failed' if failed else 'degenerate' if degenerate else 'clean'))
+
+        # --- the radius search restarts on every call of a Taylor object ------------------
+        # (state named by the property: _degenerate, _failed, direction changes ... "reset by _initialize on
+        #  each call"): an object that was first used at another point, far away and back at z0 + 1, then
+        #  gives at z0 exactly what taylor() gives.  The warm-up results are not looked at.
+        f3 = tf.np_callable(spec)
+        with warnings.catch_warnings():
+            warnings.simplefilter('ignore')
+            with ctx.lib('no-exception', desc.replace('taylor(', 'Taylor object reused: ', 1)):
+                tobj = ndf.Taylor(f3, n=n, full_output=True, **kw)
+                for zw in (z0c - 1e5, z0c + 1.0):
+                    try:
+                        with np.errstate(all='ignore'):
+                            tobj(zw)
+                    except Exception:       # noqa: the warm-up point may lie on a singularity of f
+                        pass
+                with np.errstate(all='ignore'):
+                    c3, i3 = tobj(z0)
+        c3 = np.asarray(c3)
+        same3 = (c3.shape == coefs.shape and np.array_equal(c3, coefs, equal_nan=True)
+                 and np.array_equal(np.asarray(i3.error_estimate), np.asarray(info.error_estimate), equal_nan=True)
+                 and bool(i3.failed) == failed and bool(i3.degenerate) == degenerate
+                 and float(i3.final_radius) == R and int(i3.iterations) == int(info.iterations))
+        ctx.count('reuse clause asserted')
+        if not same3:
+            raise Violation('reuse', '%s: a Taylor object used at other points before gives status %r, '
+                            'taylor() %r (coefficients equal: %s)'
+                            % (desc, tuple(i3[1:]), tuple(info[1:]),
+                               c3.shape == coefs.shape and np.array_equal(c3, coefs, equal_nan=True)),
+                            field='status')
 
         # --- derivative() == taylor() * k!, estimates scaled the same, same status ----
         calls2 = []
